@@ -67,7 +67,10 @@ class VLoop(asyncio.BaseEventLoop):
     def run_until_idle(self, advance=0.0):
         """Run until nothing is ready and no timer is due before now+advance; then now is
         exactly start+advance."""
-        self._horizon = self._clock.now + advance
+        self.run_until(self._clock.now + advance)
+
+    def run_until(self, target):
+        self._horizon = max(target, self._clock.now)
         self._idle = False
         # make sure the loop goes through select at least once
         self.run_forever()
